@@ -1,4 +1,4 @@
-CONSTANT Shape <- S5
+CONSTANT Shape <- S22
 CONSTANT MaxLabel = 2
 CONSTANT Cfgs <- CfgAll
 CONSTANT LegacyTpBeforeDecision = FALSE
